@@ -142,6 +142,28 @@ def step (st : State) (w : List String) : State × String :=
       let ps := { st.ps with mem := mem', main := main, dirty := st.ps.dirty || decide (mem' ≠ st.ps.mem) }
       ({ st with ps := ps }, s!"{memStr mem'} files=intact")
     | _, _ => (st, "bad-op")
+  | ["bl", "fresh", a, b] =>
+    -- fresh install: the directory is missing until refreshRemote's Mkdir
+    match hexStr a, hexStr b with
+    | some ka, some kb =>
+      let api (ps : PState) (k : Str) : PState :=
+        let ps' := Blocklist.step ps (.mutate (.set k))
+        if ps'.version > ps.version then run ps' (persistSteps ps' (ps'.pending.length - 1) 0) else ps'
+      let s1 := api { dirMissing := true } ka
+      let s2 := api (Blocklist.step s1 .mkdir) kb
+      (st, s!"first={fileStr s1.main} second={fileStr s2.main}")
+    | _, _ => (st, "bad-op")
+  | ["bl", "remote", mainArg, status, text] =>
+    -- the downloaded file ("<host>-<hash>.<n>.tmp") sorts before "local": it is parsed first
+    let main : Option (Option (List Str)) :=
+      if mainArg == "_" then some st.ps.main else (hexStr mainArg).map (fun t => some (splitNL t))
+    match main, hexStr text with
+    | some main, some t =>
+      let m0 := if status == "200" then parseHostFile st.ps.mem t else st.ps.mem
+      let mem' := dirLoadMem m0 main []
+      let ps := { st.ps with mem := mem', main := main, dirty := st.ps.dirty || decide (mem' ≠ st.ps.mem) }
+      ({ st with ps := ps }, s!"{memStr mem'} files=intact")
+    | _, _ => (st, "bad-op")
   | ["bl", "restart", mainArg, arg] =>
     -- probe: the process is killed now (stranding this staging file) and New runs over the directory
     let temps : Option (List (List Str)) :=
